@@ -41,6 +41,8 @@ type e2eServer struct {
 	depUp   bool
 	deps    map[string]bool
 	lastMsg time.Time
+	// a (re)connecting instance is told its dependencies in responses of at most depChunk services (0: one response)
+	depChunk int
 }
 
 func newE2EServer() *e2eServer {
@@ -58,10 +60,15 @@ func (s *e2eServer) StreamDependencies(req *api.DependencyDiscoveryRequest, stre
 	}
 	s.mu.Unlock()
 	defer func() { s.mu.Lock(); s.depUp = false; s.mu.Unlock() }()
-	if len(all) > 0 {
-		if err := stream.Send(&api.DependencyDiscoveryResponse{Added: all}); err != nil {
+	for len(all) > 0 {
+		n := len(all)
+		if s.depChunk > 0 && n > s.depChunk {
+			n = s.depChunk
+		}
+		if err := stream.Send(&api.DependencyDiscoveryResponse{Added: all[:n]}); err != nil {
 			return err
 		}
+		all = all[n:]
 	}
 	for {
 		select {
